@@ -80,7 +80,14 @@ Definition rep_spec_sum (s : sequence) (r : string -> Q) (e cnt : expr) : option
       end
   end.
 
-(* constant sequence, multiplicative: child ^ (count * multiplier) *)
+Fixpoint oprod (n : nat) (f : nat -> option Q) : option Q :=
+  match n with
+  | O => Some 1
+  | S k => match oprod k f, f k with Some a, Some b => Some (Qred (a * b)) | _, _ => None end
+  end.
+
+(* constant sequence, multiplicative: child ^ (count * multiplier); custom sequence: the unrolled product over the
+   rounds of term(i) * child -- the child's value once PER round *)
 Definition rep_spec_prod (s : sequence) (r : string -> Q) (e cnt : expr) : option Q :=
   match s, evalQ r cnt, evalQ r e with
   | SConst m, Some c, Some ev =>
@@ -91,6 +98,11 @@ Definition rep_spec_prod (s : sequence) (r : string -> Q) (e cnt : expr) : optio
           | None => None
           end
       | _, _ => None
+      end
+  | SCustom t it, Some c, Some ev =>
+      match nat_of_Q c with
+      | Some n => if Nat.leb n 40 then oprod n (fun k => omul (evalQ (upd r it (qn k)) t) (Some ev)) else None
+      | None => None
       end
   | _, _, _ => None
   end.
